@@ -230,6 +230,11 @@ def run_check(mod, tier, seed, jobs=None, replay_confirm=True):
             unmatched.append(d)
     violations = []
     nondet = []
+    if unmatched and os.environ.get("VERIF_DEBUG"):
+        hist = collections.Counter(d["sig"] for d in unmatched)
+        for k, v in hist.most_common():
+            ex = next(d for d in unmatched if d["sig"] == k)
+            print(f"  DEBUG sig={k} n={v} e.g. case={ex['case']} observed={ex['observed']!r} expected={ex['expected']!r}")
     if unmatched:
         # smallest inputs first, at most 5 replayed / reported, one per signature first
         unmatched.sort(key=lambda d: (len(json.dumps(jsonable(d["case"]), default=repr)), d["sig"]))
